@@ -8,8 +8,8 @@ The generator never looks at the transpiler."""
 import random
 
 WIDTHS = [1, 1, 2, 3, 4, 5, 8, 8, 12, 16, 24, 31, 32]
-OUT_KINDS = ['for', 'while', 'list', 'call', 'float', 'truediv', 'chained', 'tuple', 'augport', 'ternary_call', 'pow', 'return', 'subscript', 'string']
-FIND_KINDS = ['boolop_value', 'ifexp_propagate', 'portname', 'narrow', 'ifexp_clock', 'match_nodefault', 'cmp_rhs']
+OUT_KINDS = ['for', 'while', 'list', 'call', 'float', 'truediv', 'chained', 'tuple', 'augport', 'ternary_call', 'pow', 'return', 'subscript', 'string', 'match_capture', 'match_as', 'match_or', 'match_capture_unused']
+FIND_KINDS = ['boolop_value', 'ifexp_propagate', 'portname', 'narrow', 'ifexp_clock', 'match_nodefault', 'cmp_rhs', 'match_guard']
 
 
 class Gen:
@@ -22,7 +22,7 @@ class Gen:
         self.flavour = flavour
         self.kind = kind or ('clock' if rng.random() < 0.7 else 'propagate')
         if flavour == 'find:ifexp_propagate': self.kind = 'propagate'
-        if flavour in ('find:ifexp_clock', 'find:match_nodefault'): self.kind = 'clock'
+        if flavour in ('find:ifexp_clock', 'find:match_nodefault') or ':match_' in flavour: self.kind = 'clock'
         r = rng
         self.ins = [('i%d' % k, r.choice(WIDTHS)) for k in range(r.randint(1, 3))]
         self.outs = [('o%d' % k, r.choice(WIDTHS)) for k in range(r.randint(1, 3))]
@@ -133,7 +133,11 @@ class Gen:
             if c < 0.65 and self.attrs:
                 a = r.choice(self.attrs)[0]
                 if r.random() < 0.2:
-                    self.count('augassign'); return [pre + 'self.%s %s= %s' % (a, r.choice(['+', '|', '^']), self.leaf(small=True))]
+                    # followed by a read in the same call: the update is immediate
+                    self.count('augassign')
+                    n = r.choice(self.outs)[0]
+                    return [pre + 'self.%s %s= %s' % (a, r.choice(['+', '|', '^']), self.leaf(small=True)),
+                            pre + 'self.%s.prepare(self.%s)' % (self.port_attr[n], a)]
                 self.count('attr_assign'); return [pre + 'self.%s = %s' % (a, self.stored(d))]
         else:
             if c < 0.6:
@@ -203,6 +207,18 @@ class Gen:
         if f == 'out:pow': return [pre + 'self.%s.%s((%s & 3) ** 2)' % (o, w, g)]
         if f == 'out:return': return [pre + 'if %s == 1:' % g, pre + '    return', pre + 'self.%s.%s(%s)' % (o, w, g)]
         if f == 'out:string': return [pre + "x = 'abc'", pre + 'self.%s.%s(len(x))' % (o, w)]
+        if f.split(':')[1].startswith('match_'):
+            # match patterns beyond `case <int>:` / `case _:` (a capture binds the subject, a guard falls through when false)
+            k = f.split(':')[1]
+            subj = '(%s & 3)' % g
+            L = [pre + 'match %s:' % subj, pre + '    case 0:', pre + '        self.%s.%s(%s)' % (o, w, self.leaf(small=True))]
+            if k == 'match_capture': L += [pre + '    case other:', pre + '        self.%s.%s(other + 1)' % (o, w)]
+            elif k == 'match_capture_unused': L += [pre + '    case other:', pre + '        self.%s.%s(7)' % (o, w)]
+            elif k == 'match_as': L += [pre + '    case 1 as one:', pre + '        self.%s.%s(one + 2)' % (o, w), pre + '    case _:', pre + '        self.%s.%s(3)' % (o, w)]
+            elif k == 'match_or': L += [pre + '    case 1 | 2:', pre + '        self.%s.%s(5)' % (o, w), pre + '    case _:', pre + '        self.%s.%s(3)' % (o, w)]
+            elif k == 'match_guard':
+                L += [pre + '    case 1 if %s:' % self.cond(0), pre + '        self.%s.%s(5)' % (o, w), pre + '    case _:', pre + '        self.%s.%s(3)' % (o, w)]
+            return L
         if f == 'find:boolop_value':
             return [pre + 'bv = %s %s %s' % (g, r.choice(['or', 'and']), r.choice(['5', self.leaf()])), pre + 'self.%s.%s(bv)' % (o, w)]
         if f in ('find:ifexp_propagate', 'find:ifexp_clock'):
